@@ -317,6 +317,115 @@ def r4_last_written_survive_close(repo=None):
     return r
 
 
+SEARCHES = ("strstr", "strchr", "strrchr", "strpbrk", "strtok", "strcasestr", "memmem", "strsep")
+PATH_FIELDS = ("directory", "sub_directory")
+
+
+def r5_marker_search_on_base_name_only(repo=None):
+    """The name a file has once it is finished is <directory>/<sub_directory>/<base name without "tmp.">: the library drops the
+    marker by searching the *base name* (strstr(basename, "rf")).  The directory is the user's: a search whose haystack is (or
+    was built from) the directory or the sub-directory finds its needle in the path for some directory names ("/tmp/tmp.x/ch",
+    "/data/rf/ch") and the reported last file is then a name that never exists.  Provenance of the haystack of every string
+    search of the library: the basename field, or a local buffer none of whose writers (strcpy / strcat / snprintf / assignment,
+    transitively through other locals) reads a path field; a parameter is followed to the arguments of its callers."""
+    r = Rule("C19.R5", "the temporary marker is searched in the base name, never in a string containing the directory")
+    tu = cfront.lib(repo)
+    callers = {}
+    for fname, fn in tu.functions.items():
+        for c in fn.calls():
+            if c.callee in tu.functions:
+                callers.setdefault(c.callee, []).append((fname, c))
+
+    def mentions_path(node):
+        return [x.name for x in node.walk() if x.kind == "MemberExpr" and x.name in PATH_FIELDS]
+
+    def tainted_locals(fn):
+        """locals (buffers and pointers) of fn that may hold text of a path field"""
+        t = {}
+        writes = []         # (dest name, [source nodes], node)
+        for path, node, rhs, kind in clib.stores(fn):
+            if path is None or "->" in path or "." in path:
+                continue
+            if kind.startswith("call:"):
+                writes.append((path, list(node.args[1:]), node))
+            elif kind == "=" and rhs is not None:
+                writes.append((path, [rhs], node))
+        for d in fn.find("VarDecl"):
+            if d.children and d.name:
+                writes.append((d.name, [d.children[-1]], d))
+        changed = True
+        while changed:
+            changed = False
+            for dest, srcs, node in writes:
+                if dest in t:
+                    continue
+                for sn in srcs:
+                    why = None
+                    # the haystack of a search nested in the source is judged at that search, its result is a piece of the haystack
+                    mp = mentions_path(sn)
+                    if mp:
+                        why = "%s:%s reads ->%s" % (fn.name, node.line, mp[0])
+                    else:
+                        for x in sn.walk():
+                            if x.kind == "DeclRefExpr" and x.name in t:
+                                why = "%s:%s reads `%s` (%s)" % (fn.name, node.line, x.name, t[x.name])
+                                break
+                    if why:
+                        t[dest] = why
+                        changed = True
+                        break
+        return t, {w[0] for w in writes}
+
+    def judge(fname, hay, depth=0):
+        """None (clean) or a reason (tainted); AnalysisError when the provenance is not known"""
+        fn = tu.functions[fname]
+        h = hay.strip(casts=True)
+        mp = mentions_path(h)
+        if mp:
+            return "the haystack reads ->%s" % mp[0]
+        p = h.path()
+        if p is not None and p.endswith("->basename"):
+            return None
+        if h.kind == "StringLiteral":
+            return None
+        if p is None or "->" in p or "." in p:
+            raise AnalysisError("%s: haystack `%s` of a string search: provenance not recognised" % (fname, h.nsrc[:50]))
+        t, written = tainted_locals(fn)
+        if p in t:
+            return t[p]
+        idx = clib.param_index(fn, p)
+        if idx is not None and idx >= 0:
+            if depth > 3:
+                raise AnalysisError("%s: parameter `%s` followed through more than 3 callers" % (fname, p))
+            cs = callers.get(fname, [])
+            if not cs and p not in written:
+                raise AnalysisError("%s: haystack parameter `%s` of an entry point: provenance not known" % (fname, p))
+            for cn, c in cs:
+                if idx < len(c.args):
+                    why = judge(cn, c.args[idx], depth + 1)
+                    if why:
+                        return "%s <- %s" % (p, why)
+            return None
+        if p in written:
+            return None
+        raise AnalysisError("%s: haystack `%s` of a string search is never written in the function" % (fname, p))
+
+    for fname, fn in tu.functions.items():
+        for c in fn.calls():
+            if c.callee not in SEARCHES or not c.args:
+                continue
+            why = judge(fname, c.args[0])
+            site = "%s:%s %s `%s`" % (C_LIB, c.line, fname, c.nsrc[:60])
+            if why:
+                r.violation(C_LIB, fname, c.nsrc[:80], "a string search over text that contains the user's directory (%s): for a directory "
+                            "that contains the needle the name composed from the result is not the file's name - the reported last file "
+                            "written / the finished name does not exist" % why, line=c.line)
+            else:
+                r.ok(site, "the haystack is the base name (no writer of it reads a path field)")
+    r.guard(1)
+    return r
+
+
 def rules(repo=None):
     def r1():
         x = c05.r2_validate_before_effect_py(repo)
@@ -325,17 +434,22 @@ def rules(repo=None):
             f.rule = "C19.R1"
         return x
     return [r1, lambda: r2_affine_invariant(repo), lambda: r3_extension_returns_cursor(repo),
-            lambda: r4_last_written_survive_close(repo)]
+            lambda: r4_last_written_survive_close(repo), lambda: r5_marker_search_on_base_name_only(repo)]
 
 
 EXPLANATION = (
-    "R1: counters are stored only after the extension call returned normally (C05.R2). R2: the straight-line update after the "
-    "extension call is evaluated symbolically as linear forms over the pre-state (S, G, N), the extension's return value r, the "
-    "requested index p and the sample count n; required: S' = S+n, N' = r, return r, each counter stored once, and "
-    "S'+G'-N' = S+G-N *identically* in both write methods (a gap taken from the requested index p instead of the returned cursor "
-    "r leaves the residual p+n-r, which is non-zero for an empty array written ahead of the cursor: reported). R3: both extension wrappers return hdf5_write_data_object->global_index read after the last library call. "
-    "R4: close() caches the three values before deleting the channel object and the getters fall back to them; the C fields "
-    "are stored only during file creation. Does NOT decide the value of the C cursor.")
+    'R1: counters are stored only after the extension call returned normally (C05.R2). R2: the straight-line update after'
+    " the extension call is evaluated symbolically as linear forms over the pre-state (S, G, N), the extension's return "
+    "value r, the requested index p and the sample count n; required: S' = S+n, N' = r, return r, each counter stored "
+    "once, and S'+G'-N' = S+G-N *identically* in both write methods (a gap taken from the requested index p instead of "
+    'the returned cursor r leaves the residual p+n-r, which is non-zero for an empty array written ahead of the cursor: '
+    'reported). R3: both extension wrappers return hdf5_write_data_object->global_index read after the last library call.'
+    ' R4: close() caches the three values before deleting the channel object and the getters fall back to them; the C '
+    'fields are stored only during file creation. R5: provenance of the haystack of every string search of the library '
+    '(strstr and relatives): the base name, or a local buffer none of whose writers reads the directory / sub_directory '
+    "fields (followed through locals and to the callers' arguments) - a search for the temporary marker over the whole "
+    "path finds it in the user's directory for some directory names, and the reported last file is then a name that never"
+    ' exists. Does NOT decide the value of the C cursor.')
 TECHNIQUE = ('Python ast + clang JSON AST; symbolic linear forms of the counter updates; ordering relative to the extension call; def-use of cached values')
 ASSUMPTIONS = ["the extension's return value is the library's cursor (R3); its value is not decided"]
 FILES = [RF, C_EXT, C_LIB]
